@@ -277,7 +277,11 @@ def _reference_decode(stream):
 
 
 def _real_decode(chunks):
-    p = object.__new__(ash.AshProtocol)
+    # built by the real constructor (whatever bookkeeping it sets up is there), then put into the start state
+    try:
+        p = ash.AshProtocol(None)
+    except Exception:
+        p = object.__new__(ash.AshProtocol)
     p._ezsp_protocol = None
     p._transport = None
     p._buffer = bytearray()
